@@ -241,8 +241,9 @@ class MUnit(vcgen.Unit):
                     # elements from the pointer's offset on are rewritten; what lies before is untouched
                     old_arr = st.arrs[v.arr]
                     new_arr = self.ev.fresh(str(v.arr).replace("@", "_") + "_swapped", self.ev.arr_sort(v.arr))
-                    q = z3.Int("q?swap")
-                    st.assume(z3.ForAll([q], z3.Implies(q < v.t, z3.Select(new_arr, q) == z3.Select(old_arr, q))))
+                    if not (z3.is_int_value(v.t) and v.t.as_long() <= 0):     # (from offset 0 on: nothing is known to survive)
+                        q = z3.Int("q?swap")
+                        st.assume(z3.ForAll([q], z3.Implies(q < v.t, z3.Select(new_arr, q) == z3.Select(old_arr, q))))
                     st.arrs[v.arr] = new_arr
             return Val(IV(0), "opaque")
         if name == "memcpy" and len(args) == 3:
